@@ -94,7 +94,7 @@ Fixpoint eval_expr (fuel : nat) (genv en : env) (e : expr) (out : list N) {struc
     match e with
     | ENum z => Ok (VInt z) out
     | EBool b => Ok (VBool b) out
-    | EStr s => Ok (VStr s) out
+    | EStr s => Ok (VStr (unescape s)) out
     | EVar x =>
         match lookup x en with
         | Some (_, v) => Ok v out
